@@ -5,18 +5,22 @@
 dir=$(readlink -f "$1"); shift
 export GOFLAGS=-mod=mod GOPROXY=off
 wt=$(mktemp -d /tmp/wt_conf_XXXX); rmdir "$wt"
-git -C /repo worktree add -q --detach "$wt" HEAD || exit 2
-trap 'git -C /repo worktree remove --force "$wt"' EXIT
+# the tree the change was written against: meta.json "apply_to" next to the patch (default HEAD)
+base=HEAD
+[ -f "$dir/meta.json" ] && base=$(python3 -c "import json,sys; print(json.load(open(sys.argv[1])).get('apply_to','HEAD'))" "$dir/meta.json")
+git -C /repo worktree add -q --detach "$wt" "$base" || exit 2
+out=$(mktemp /tmp/confirm_out_XXXX)
+trap 'git -C /repo worktree remove --force "$wt"; rm -f "$out"' EXIT
 pkg=.
 if [ -f "$dir/demo/main.go" ]; then
   put() { mkdir -p "$wt/zz_demo" && cp "$dir/demo/main.go" "$wt/zz_demo/main.go"; }
   unput() { rm -rf "$wt/zz_demo"; }
-  run() { ( cd "$wt" && timeout 900 go run ./zz_demo "$@" >/tmp/confirm_out.txt 2>&1 ); }
+  run() { ( cd "$wt" && timeout 900 go run ./zz_demo "$@" >"$out" 2>&1 ); }
 else
   head -30 "$dir/demo_test.go" | grep -q "^package expr" && pkg=./expr
   put() { cp "$dir/demo_test.go" "$wt/$pkg/zz_demo_test.go"; }
   unput() { rm -f "$wt/$pkg/zz_demo_test.go"; }
-  run() { ( cd "$wt" && timeout 900 go test -vet=off -count=1 -run 'Test.*Demo|TestMut' "$@" $pkg >/tmp/confirm_out.txt 2>&1 ); }
+  run() { ( cd "$wt" && timeout 900 go test -vet=off -count=1 -run 'Test.*Demo|TestMut' "$@" $pkg >"$out" 2>&1 ); }
 fi
 put
 run "$@"; a=$?
@@ -26,5 +30,5 @@ base=$("$(dirname "$0")/baseline.py" "$wt" | head -1)
 put
 run "$@"; b=$?
 echo "demo on unchanged tree: exit=$a (want 0); with patch: exit=$b (want !=0); $base"
-tail -5 /tmp/confirm_out.txt | cut -c1-200
+tail -5 "$out" | cut -c1-200
 [ $a -eq 0 ] && [ $b -ne 0 ]
